@@ -442,7 +442,13 @@ fn gen_call(g: &mut Gen, rng: &mut impl rand::RngCore, allow_proofs: bool, count
         61..=63 => Call::SetMetadata(rbl(rng, &[0, 1, 16, 300])),
         64..=65 => Call::GetMetadata,
         66 => Call::Flush,
-        67 => Call::SetTree(g.depth),
+        67 => {
+            if rng.gen_bool(0.5) {
+                Call::SetTree(g.depth)
+            } else {
+                Call::SetMetadata(b"meta-3".to_vec())
+            }
+        }
         68..=70 => Call::Hash(rbl(rng, &[0, 1, 136, 137, 1000])),
         71..=73 => {
             let n = rng.gen_range(1..=8);
@@ -545,13 +551,53 @@ pub fn run(rep: &mut Rep, args: &[String]) {
             v
         };
         let mut hist: Vec<String> = vec![];
-        for k in 0..ncalls {
+        // scripted scenarios around state that survives or must not survive certain calls (reset of an empty / a
+        // filled tree, metadata set/cleared/overwritten, flush, batch initialisation with nothing, sequential batch on
+        // an empty tree); they are replayed first, the generated calls follow
+        let l1 = |rng: &mut rand_chacha::ChaCha8Rng, n: usize| enc_vec_fr(&(0..n).map(|_| rand_fr(rng)).collect::<Vec<_>>());
+        let mut script: Vec<Call> = vec![
+            Call::SetTree(*depth),
+            Call::GetMetadata,
+            Call::SetMetadata(b"meta-1".to_vec()),
+            Call::SetTree(*depth),
+            Call::GetMetadata,
+            Call::LeavesSet,
+            Call::SetMetadata(b"meta-2".to_vec()),
+            Call::SetMetadata(vec![]),
+            Call::GetMetadata,
+            Call::SetMetadata(b"meta-3".to_vec()),
+            Call::SetMetadata(b"meta-3".to_vec()),
+            Call::Flush,
+            Call::GetMetadata,
+            Call::InitTree(l1(&mut rng, 0)),
+            Call::GetMetadata,
+            Call::SeqAtomic(l1(&mut rng, 2), enc_vec_u8(&[])),
+            Call::SeqAtomic(l1(&mut rng, 1), enc_vec_u8(&[2])),
+            Call::SetNextLeaf(enc_fr(&rand_fr(&mut rng))),
+            Call::SetMetadata(b"meta-4".to_vec()),
+            Call::InitTree(l1(&mut rng, 3)),
+            Call::GetMetadata,
+            Call::DeleteLeaf(1),
+            Call::DeleteLeaf(1),
+            Call::SetLeaf(1, enc_fr(&Fr::from(0u64))),
+            Call::Atomic(0, l1(&mut rng, 0), enc_vec_u8(&[0, 2])),
+            Call::GetRoot,
+            Call::SetTree(*depth),
+            Call::SetTree(*depth),
+            Call::LeavesSet,
+            Call::SetLeaf(3, rc.clone()),
+        ];
+        script.reverse();
+        for k in 0..ncalls + script.len() {
             let count_hint = pair.rust.leaves_set();
             if *depth == 20 && proofs_left > 0 {
                 let req = enc_prove_request(&secret, 3, &Fr::from(10u64), &Fr::from(1u64), &Fr::from(77u64), b"w");
                 g.witness = catch(|| pair.rust.get_serialized_rln_witness(Cursor::new(req)).ok()).ok().flatten();
             }
-            let call = gen_call(&mut g, &mut rng, proofs_left > 0, count_hint);
+            let call = match script.pop() {
+                Some(c) => c,
+                None => gen_call(&mut g, &mut rng, proofs_left > 0, count_hint),
+            };
             if matches!(call, Call::GenProof(..) | Call::GenProofWitness(..) | Call::Prove(..)) {
                 proofs_left -= 1;
             }
